@@ -52,6 +52,11 @@ func init() {
 
 func init() {
 	families["C07"] = &rt.Family{Prop: "C07", Module: "MC_C07", PackSize: 8,
+		// same-named types of two documents (or of one document) that differ only in the limits of an array property
+		More: []rt.Extra{{Module: "MC_C10", ExtraCfg: tierCfg, Keep: func(u *rt.Unit) bool {
+			k := u.Str("kind")
+			return twoDocs(u) && (k == "arr" || k == "arr2")
+		}}},
 		Rule: "units = nesting depth 1..3 x per-level limit option (9 options incl. maxItems 0; 4 at depth 3 in the quick tier) x element kind (integer | object with required key) x 6 positions; documents = uniform nested arrays for every vector of per-level lengths 0..3, ragged arrays, one with an invalid element, absent, null. distinct_nontrivial = distinct (unit, document) pairs with a definite reference verdict",
 		ExtraCfg: func(tier string) string { return "  Tier = \"" + tier + "\"\n" }}
 }
